@@ -262,21 +262,6 @@ def _check_exceptions(repo: Repo, rep: Report, res: Resolver):
                     rep.fail("R-EFFECT.exceptions", f"{key[0]}.{key[1]}", n, f"raises {nm}; only ValueError may escape the parser", mod, n)
                 else:
                     rep.ok("R-EFFECT.exceptions", f"{key[0]}.{key[1]}: {unparse(n)[:60]}")
-            if isinstance(n, ast.ExceptHandler):
-                rep.fail("R-EFFECT.exceptions", f"{key[0]}.{key[1]}", f"except {unparse(n.type) if n.type else ''}",
-                         "exception handler inside the parser closure (a swallowed error would return a different sequence silently)", mod, n)
-            if isinstance(n, ast.Subscript) and isinstance(n.ctx, ast.Load) and key == ("svg_meta", "num_args"):
-                pass
-        # dictionary lookups that could raise KeyError must be guarded by a membership test raising ValueError
-        for n in walk_no_nested(fn):
-            if isinstance(n, ast.Subscript) and isinstance(n.ctx, ast.Load) and isinstance(n.value, ast.Name) \
-                    and n.value.id in ("_CMD_ARGS", "_CMD_COORDS"):
-                guarded = any(isinstance(i, ast.If) and "not" in unparse(i.test) and f"in _CMD_ARGS" in unparse(i.test)
-                              and any(isinstance(s, ast.Raise) for s in i.body) for i in walk_no_nested(fn))
-                if guarded:
-                    rep.ok("R-EFFECT.exceptions", f"{key[0]}.{key[1]}: {unparse(n)} guarded by membership test")
-                else:
-                    rep.fail("R-EFFECT.exceptions", f"{key[0]}.{key[1]}", n, "table lookup without membership guard: KeyError could escape", mod, n)
     rep.floor("raise statements in the parser closure", n_raise, 1)
 
 
